@@ -11,3 +11,11 @@ PROFILES = {
     'C05': P(6000, 60, 300000, 1500),
     'C06': P(6000, 60, 300000, 1500),
 }
+PROFILES.update({
+    'C03': P(6000, 60, 300000, 1500),
+    'C04': P(6000, 60, 300000, 1500),
+    'C07': P(8000, 60, 300000, 1500, level='exploration'),
+    'C08': P(4000, 90, 200000, 1800),
+    'C09': P(5000, 60, 300000, 1500),
+    'C10': P(3000, 90, 150000, 1800),
+})
